@@ -126,6 +126,19 @@ package bloom
 //@   ensures bf.msgFilterLoad == nil ==> !result
 //@   modifies bf.mtx
 
+//@ func bloom.minUint32
+//@   ensures (a < b ==> result == a) && (a >= b ==> result == b)
+//@   modifies nothing
+
+//@ func bloom.NewFilter
+//@   ensures result != nil && fresh(result) && !held(result.mtx)
+//@   ensures result.msgFilterLoad != nil && fresh(result.msgFilterLoad)
+//@   ensures len(result.msgFilterLoad.Filter) <= 36000 && result.msgFilterLoad.HashFuncs <= 50
+//@   ensures result.msgFilterLoad.Tweak == tweak && result.msgFilterLoad.Flags == flags
+//@   ensures forall k :: 0 <= k && k < len(result.msgFilterLoad.Filter) ==> result.msgFilterLoad.Filter[k] == 0
+//@   ensures $calls_minUint32 == 2
+//@   modifies nothing
+
 //@ func bloom.LoadFilter
 //@   ensures result != nil && fresh(result) && result.msgFilterLoad == filter && !held(result.mtx)
 //@   modifies nothing
